@@ -588,7 +588,7 @@ Qed.
 Lemma r_workerfinished n sk : rspec (d_worker_workerfinished n sk).
 Proof.
   intros d0. unfold d_worker_workerfinished, hook.
-  rs; try apply r_errordown; try apply r_active_remove.
+  rs; try apply r_errordown; try apply r_active_remove; try apply r_triggershutdown.
 Qed.
 
 Definition is_qreport (ev : cevent) : bool := match ev with QReport _ _ _ _ => true | _ => false end.
